@@ -255,6 +255,15 @@ func (c *Config) SetChild(name string, idx int, value *Config, opts ...Option) e
 	if value == nil {
 		return raiseNil(ErrNilConfig)
 	}
+
+	// A config can not become a child of itself or of one of its own
+	// children: walking the tree (Path, FlattenedKeys, Unpack, the error
+	// messages) would never end.
+	for p := c; p != nil; p = p.Parent() {
+		if p == value {
+			return raiseCyclicErr(name)
+		}
+	}
 	return c.setField(name, idx, cfgSub{c: value}, opts)
 }
 
